@@ -1773,8 +1773,12 @@ def _amnt_and_unit_from_term(term: UnitDefT) -> AmountUnitTupleT:
         res_unit = _unit_from_term(term)
     except KeyError:
         num, res_def = term.normalized().split()
-        if not res_def:  # empty term
-            return num, None
+        if not res_def:  # all units cancelled ...
+            try:
+                # ... is there a quantity type with such a definition?
+                return num, _unit_from_term(res_def)
+            except KeyError:
+                return num, None
         elif res_def != term:
             res_unit = _unit_from_term(res_def)
         else:
